@@ -19,14 +19,17 @@ Section Fastest.
   Variable Rel : cstate -> scratch -> Prop.
 
   (** a compressed block that is actually emitted decodes to its input and keeps the states related *)
-  Hypothesis H_block : forall cs sc blk body cs', Rel cs sc -> cblock cs blk = (body, cs') -> all_same blk = false ->
+  Hypothesis H_block : forall cs sc blk body cs', Rel cs sc -> blk <> [] -> Z.of_nat (length blk) <= 131072 ->
+    cblock cs blk = (body, cs') -> all_same blk = false ->
     (length body < length blk)%nat -> Z.of_nat (length body) <= MAX_BLOCK_SIZE ->
     exists sc', decompress_block (Z.of_nat (length body)) sc body = ROk sc' /\
                 sc_content sc' = sc_content sc ++ blk /\ Rel cs' sc'.
   (** a run goes out as an RLE block: the decoder only appends the bytes *)
-  Hypothesis H_skip : forall cs sc blk, Rel cs sc -> all_same blk = true -> Rel (cskip cs blk) (sc_push_raw sc blk).
+  Hypothesis H_skip : forall cs sc blk, Rel cs sc -> blk <> [] -> Z.of_nat (length blk) <= 131072 ->
+    all_same blk = true -> Rel (cskip cs blk) (sc_push_raw sc blk).
   (** a block whose compressed form was discarded goes out raw: the decoder only appends the bytes *)
-  Hypothesis H_fallback : forall cs sc blk body cs', Rel cs sc -> cblock cs blk = (body, cs') ->
+  Hypothesis H_fallback : forall cs sc blk body cs', Rel cs sc -> blk <> [] -> Z.of_nat (length blk) <= 131072 ->
+    cblock cs blk = (body, cs') ->
     Rel (cfallback cs') (sc_push_raw sc blk).
 
   Notation enc_blocks_f := (enc_blocks cstate cblock cskip cfallback LFastest).
@@ -67,7 +70,7 @@ Section Fastest.
         destruct (block_header_read 2 (length body) last body rest) as (hdr & E3 & L3 & R3); [lia|exact Hb|].
         rewrite E3 in H. cbn [rbind] in H. injection H as <- <-.
         assert (Hsk : skipn 3 (hdr ++ body) = body) by (rewrite skipn_app, <- L3, skipn_all, Nat.sub_diag; reflexivity).
-        destruct (H_block cs sc blk body cs1 HR Ec Eall E1 E2) as (sc' & Ed & Econt & HR').
+        destruct (H_block cs sc blk body cs1 HR Hne Hsz Ec Eall E1 E2) as (sc' & Ed & Econt & HR').
         rewrite Hsk. eexists 2, _, _, _, _. split; [exact R3|]. cbn [Z.eqb orb].
         unfold decode_block_content. cbn [Z.eqb]. rewrite read_exact_app, Ed. cbn [rbind].
         split; [reflexivity|]. split; assumption.
@@ -179,13 +182,14 @@ Section Fastest.
 
   Variable creset : cstate -> cstate.
   (** compress() resets the matcher and forgets the Huffman table; the decoder starts from a new scratch state *)
-  Hypothesis H_reset : forall cs w, Rel (creset cs) (scratch_new w).
+  Variable Cinit : cstate -> Prop.
+  Hypothesis H_reset : forall cs w, Cinit cs -> Rel (creset cs) (scratch_new w).
 
   (** level Fastest, all inputs / fragmentations / block sizes / reuse: if the block-level encoder meets the four
       obligations, the frame initialises a new decoder, decodes completely with nothing left over, regenerates the
       input and carries the checksum *)
   Theorem fastest_roundtrip slice wsize hash32 cs data script frame cs' r' :
-    1 <= Z.of_nat slice <= 131072 -> 1 <= wsize <= 2 ^ 27 ->
+    Cinit cs -> 1 <= Z.of_nat slice <= 131072 -> 1 <= wsize <= 2 ^ 27 ->
     (forall h x, hash32 = Some h -> length (h x) = 4%nat) ->
     compress_frame cstate cblock cskip cfallback creset LFastest slice wsize hash32 cs
       {| rd_data := data; rd_script := script |} = ROk (frame, cs', r') ->
@@ -195,7 +199,7 @@ Section Fastest.
       buf_content s2 = data /\
       fr_checksum s2 = match hash32 with Some h => Some (le_val (h data)) | None => None end.
   Proof.
-    intros Hs Hw Hh Hc.
+    intros Hinit Hs Hw Hh Hc.
     destruct (blocks_of_total (S (length data)) slice data) as (Ccat & Cn & Csz); [lia|lia|].
     destruct (blocks_of_shape (S (length data)) slice data) as (pre & lastblk & Eshape & Fshape); [lia|lia|].
     destruct (compress_frame_shape cstate cblock cskip cfallback creset LFastest slice wsize hash32 cs data script frame cs' r' ltac:(lia) Hc)
@@ -232,7 +236,7 @@ Section Fastest.
       { rewrite Eshape in *. eapply enc_blocks_min; eassumption. }
       rewrite app_length. lia. }
     destruct (blocks_loop_fastest bl (S (S (length (bs ++ tail)))) s0 (creset cs) bs cs' tail
-                (db_len (sc_buf (fr_scratch s0))) (fr_blocks s0) (H_reset cs w) Ebs Hsz) as (s' & El & F1 & F2 & F3 & F4).
+                (db_len (sc_buf (fr_scratch s0))) (fr_blocks s0) (H_reset cs w Hinit) Ebs Hsz) as (s' & El & F1 & F2 & F3 & F4).
     { exists pre, lastblk. split; assumption. }
     { exact Hfuel. }
     { exact Htail. }
